@@ -151,6 +151,35 @@ def refreshScopesOK (b : Book) (granted : List String) : Bool :=
   let rs := decList (b.cfgv "refreshScopes")
   rs.isEmpty || rs.any granted.contains
 
+def encListI (xs : List String) : String := String.join (xs.map (fun x => "," ++ x))
+
+/-- what `IntrospectToken` says about a token, against the bookkeeping (C09 and the "inactive" halves of
+    C01/C04/C06/C07/C08) -/
+def checkIntrospect (b : Book) (tok scopes o : String) : List String :=
+  let k := outKind o
+  match b.tok (descBase tok) with
+  | none => if k == "active" then ["C09:unknown-token-reported-active"] else []
+  | some t =>
+    let g := (b.grant t.gid).getD default
+    let expired := match t.exp with | some e => decide (b.now > e) | none => false
+    let covered := (decList scopes).all (fun s => s == "" || specCovers b g.gscopes s)
+    let rtDisabled := t.kind == 'R' && b.cfgv "noRtIntrospect" == "1"
+    if k == "active" then
+      (if !descExact tok then ["C06:tampered-token-reported-active"] else []) ++
+      (if t.dead then [t.why ++ ":dead-token-reported-active"] else []) ++
+      (if expired then ["C07:expired-token-reported-active"] else []) ++
+      (if !covered then ["C09:active-although-required-scope-not-granted"] else []) ++
+      (if rtDisabled then ["C09:refresh-token-introspected-although-disabled"] else []) ++
+      (if outField o "c" != t.client then ["C09:reported-client-differs"] else []) ++
+      (if outField o "sub" != g.subject then ["C09:reported-subject-differs"] else []) ++
+      (if outField o "gs" != encListI g.gscopes then ["C09:reported-scopes-differ"] else []) ++
+      (if outField o "ga" != encListI g.gaud then ["C09:reported-audience-differs"] else []) ++
+      (if outField o "use" != (if t.kind == 'A' then "access_token" else "refresh_token") then ["C09:reported-kind-differs"] else [])
+    else if k == "inactive" then
+      (if descExact tok && !t.dead && !expired && covered && !rtDisabled then ["C09:live-token-reported-inactive"] else [])
+    else []
+
+
 /-- Checks evaluated on one (operation, outcome) pair against the bookkeeping *before* the
     operation.  Each hit is "Cxx:<signature>". -/
 def check (b : Book) (f : List String) (o : String) : List String :=
@@ -224,28 +253,23 @@ def check (b : Book) (f : List String) (o : String) : List String :=
         (if sigMatches tok && t.kind == 'R' && t.usedRT && authed && hasGrant && errName o != "invalid_grant/400" then
             ["C04:reuse-not-invalid_grant"] else [])
       else []
-  | ["introspect", tok, _hint, scopes] =>
-    match b.tok (descBase tok) with
-    | none => if k == "active" then ["C09:unknown-token-reported-active"] else []
-    | some t =>
-      let g := (b.grant t.gid).getD default
-      let expired := match t.exp with | some e => decide (b.now > e) | none => false
-      let covered := (decList scopes).all (fun s => s == "" || specCovers b g.gscopes s)
-      let rtDisabled := t.kind == 'R' && b.cfgv "noRtIntrospect" == "1"
-      if k == "active" then
-        (if !descExact tok then ["C06:tampered-token-reported-active"] else []) ++
-        (if t.dead then [t.why ++ ":dead-token-reported-active"] else []) ++
-        (if expired then ["C07:expired-token-reported-active"] else []) ++
-        (if !covered then ["C09:active-although-required-scope-not-granted"] else []) ++
-        (if rtDisabled then ["C09:refresh-token-introspected-although-disabled"] else []) ++
-        (if outField o "c" != t.client then ["C09:reported-client-differs"] else []) ++
-        (if outField o "sub" != g.subject then ["C09:reported-subject-differs"] else []) ++
-        (if outField o "gs" != encListW g.gscopes then ["C09:reported-scopes-differ"] else []) ++
-        (if outField o "ga" != encListW g.gaud then ["C09:reported-audience-differs"] else []) ++
-        (if outField o "use" != (if t.kind == 'A' then "access_token" else "refresh_token") then ["C09:reported-kind-differs"] else [])
-      else if k == "inactive" then
-        (if descExact tok && !t.dead && !expired && covered && !rtDisabled then ["C09:live-token-reported-inactive"] else [])
-      else []
+  | ["introspect", tok, _hint, scopes] => checkIntrospect b tok scopes o
+  | ["introspectHTTP", ckind, carg, ccred, tok, _hint, scopes] =>
+    -- "answers only callers that authenticate with valid client credentials or a valid, different,
+    -- active access token": an answer about the token (active or inactive) needs such a caller
+    let answered := k == "active" || k == "inactive"
+    let callerOK :=
+      if ckind == "basic" then (b.client carg).isSome && ccred == "1"
+      else if ckind == "bearer" then
+        match b.tok (descBase carg) with
+        | some t =>
+          let expired := match t.exp with | some e => decide (b.now > e) | none => false
+          descExact carg && carg != tok && t.kind == 'A' && !t.dead && !expired
+        | none => false
+      else false
+    (if answered && !callerOK then ["C09:endpoint-answered-unauthenticated-caller"] else []) ++
+    -- what it says about the token is judged exactly as for IntrospectToken
+    (if answered then checkIntrospect b tok scopes (if k == "inactive" then "inactive x" else o) else [])
   | ["revoke", client, cred, tok, _hint] =>
     let cl := b.client client
     let authed := match cl with | some c => c.isPublic || cred == "1" | none => false
